@@ -313,7 +313,7 @@ def build_bases(b, env, outdir, tier, seed, want=None):
         if wanted("fs:" + prof):
             bases["fs:" + prof] = fs[prof]
     # ---- jrn:<profile>:<k>
-    njrn = {"quick": 14, "thorough": 42}[tier]
+    njrn = {"quick": 14, "thorough": 28}[tier]
     for prof in ("ext3_1k", "ext4_1k"):
         if not wanted("jrn:" + prof):
             continue
@@ -683,13 +683,13 @@ def asis(base):
 
 # items per (base, object class) taken from the structured catalogue, per tier and base kind
 LIMIT = {"quick": {"fs": 8, "jrn": 6, "undo": 40, "qcow": 40, "extj": 16},
-         "thorough": {"fs": 30, "jrn": 5, "undo": 400, "qcow": 400, "extj": 120}}
+         "thorough": {"fs": 12, "jrn": 3, "undo": 150, "qcow": 400, "extj": 120}}
 
 
 def universe(bases, tier, seed):
     """The closed universe of this tier: list of input recipes (deterministic order)."""
     U = []
-    nun = {"quick": 4, "thorough": 40}[tier]
+    nun = {"quick": 4, "thorough": 30}[tier]
     for bid, base in bases.items():
         if base.kind in ("c13", "raw"):
             U.append(asis(base))
